@@ -3,9 +3,9 @@ from ..defuse import du_of, walk, peel, callee_name, fmt
 from ..callgraph import cg_of
 from .. import engine
 from ..cfg import cfg_of
-from ..conds import lits_of
+from ..conds import lits_of, closure_result_lits
 from ..roles import roles_of
-from ..common import arg_term, contains_call, call_named, field_path, ADAPTER_TRAIT
+from ..common import arg_term, contains_call, call_named, field_path, ADAPTER_TRAIT, iter_chain
 from .. import tables
 
 TEXT = ("Decides the two clauses of reopen-equality that are visible in the shape of the code. K1 (contradiction "
@@ -113,7 +113,7 @@ def run(facts, res):
         res.violation("K2", "block-keys-not-the-constants", "Delta::to_json writes %s, constants are %s" % (sorted(wk), sorted(names)), w.loc())
 
     # ------------------------------------------------------------------ K2b arities + K2e positions
-    arr = [(n, el, ln, bi) for (n, el, ln, bi) in tables.array_literals(w)]
+    arr = [x for cb_ in [w] + facts.closures_of(w.path) for x in tables.array_literals(cb_)]
     w_ar = sorted({n for n, _, _, _ in arr})
     lc = tables.len_compared_consts(r)
     r_ar = sorted({c for (op, c) in lc if op == "Eq"})
@@ -246,6 +246,44 @@ def run(facts, res):
                                   "%s accumulates change records in a keyed collection whose key is a projection of the revision (digest / index): two staged "
                                   "revisions of one object with the same digest (toggle A-B-A-B, delete/re-create/delete, two resolution markers) "
                                   "collapse into one record" % fn, cb.loc(t.line))
+            # adaptor-chain form: changes.extend(revs.iter().filter(|e| e.is_staging()).map(|e| Change(..))) / .collect()
+            for bi, t in cb.calls():
+                if t.callee is None or t.callee.name not in ("extend", "collect", "from_iter") or "melda::Change" not in (t.callee.full or ""):
+                    continue
+                it_t = du.operand_term(t.args[1 if t.callee.name == "extend" and len(t.args) > 1 else 0], 30)
+                chain = iter_chain(it_t)
+                names = [callee_name(x) for x in chain]
+                if "get_revisions" not in names:
+                    continue
+                n_k4 += 1
+                seen_fn.add(fn)
+                src_ok = "get_leafs" not in names and not (set(names) & {"take", "skip", "step_by", "take_while", "skip_while", "filter_map", "rev", "nth", "skip_last", "map_while", "flat_map"})
+                staged = all_pass = False
+                nfilter = 0
+                for x in chain:
+                    if callee_name(x) != "filter" or len(x[2]) < 2:
+                        continue
+                    nfilter += 1
+                    c_ = x[2][1]
+                    hops = 0
+                    while hops < 20 and c_[0] in ("ref", "deref", "cast", "var"):
+                        hops += 1
+                        c_ = c_[3] if c_[0] == "var" else c_[1]
+                    fcb = facts.body(c_[1]) if c_[0] == "closure" else None
+                    if fcb is None:
+                        continue
+                    tl = closure_result_lits(fcb, facts, True)
+                    fl_ = closure_result_lits(fcb, facts, False)
+                    staged = any(l.kind == "call" and callee_name(l.term) == "is_staging" and l.truth is True for l in tl)
+                    all_pass = any(l.kind == "call" and callee_name(l.term) == "is_staging" and l.truth is False for l in fl_)
+                ok = src_ok and nfilter == 1 and staged and all_pass and "map" in names
+                res.instance("K4", "%s: change records built by an adaptor chain over the complete revision map (%s), filtered by is_staging() exactly (%s)" % (
+                    cb.path, src_ok, staged and all_pass and nfilter == 1), cb.loc(t.line))
+                if not ok:
+                    res.violation("K4", "%s|change-set-not-all-staged-entries" % fn,
+                                  "%s builds its change records from something other than `every entry of get_revisions() with is_staging()` "
+                                  "(adaptor chain %s; whole map: %s, selects staged entries: %s, selects every staged entry: %s)" % (
+                                      fn, "/".join(reversed(names)), src_ok, staged, all_pass), cb.loc(t.line))
             if not pushes:
                 continue
             seen_fn.add(fn)
@@ -364,12 +402,19 @@ def run(facts, res):
 
 
 def _writer_tag(e):
-    names = tables.var_names(e)
-    for tag in ("uuid", "prev", "rev"):
-        if tag in names:
-            if tag == "rev":
-                return "rev.digest" if contains_call(e, "digest") else "rev"
-            return tag
+    """what a record element is, from the structure of its term (no variable names): the digest of the record's revision,
+    the printed parent revision (field 2 of a Change / get_parent()), or the object identifier (a plain copy)"""
+    cf = {x[2] for x in walk(e) if x[0] == "field" and len(x) > 3 and (x[3] or "").endswith("Change")}
+    if contains_call(e, "get_parent"):
+        return "prev"
+    if contains_call(e, "digest"):
+        return "rev.digest" if (not cf or "1" in cf) else None
+    if contains_call(e, "to_string"):
+        if cf:
+            return "prev" if "2" in cf else ("rev" if "1" in cf else None)
+        return "rev"
+    if contains_call(e, "clone") or contains_call(e, "to_owned"):
+        return "uuid" if (not cf or "0" in cf) else None
     return None
 
 
